@@ -189,6 +189,18 @@ func cmdVerify(args []string) {
 		}(i, k, c)
 	}
 	wg.Wait()
+	// the lemmas the verified functions instantiate are proved in the same run
+	usedLemmas := map[string]bool{}
+	for _, r := range results {
+		if r != nil {
+			for _, l := range r.Lemmas {
+				usedLemmas[l] = true
+			}
+		}
+	}
+	if ln := g.lemmaClosure(usedLemmas); len(ln) > 0 {
+		results = append(results, g.proveLemmasAsFunc(ln, *smtDir, 60*time.Second))
+	}
 	assumed := map[string]bool{}
 	nob, nok, nfail, nund := 0, 0, 0, 0
 	for _, r := range results {
